@@ -2,4 +2,4 @@
 #include "core.h"
 #define STUB(n) __attribute__((weak)) int n(cmd_t * c) { (void)c; return 0; }
 STUB(scen_dstring) STUB(scen_convert) STUB(scen_pool) STUB(scen_meta) STUB(scen_critic) STUB(scen_tree)
-STUB(scen_transclude) STUB(scen_opml) STUB(scen_chain) STUB(scen_pairs) STUB(scen_cost) STUB(scen_threads)
+STUB(scen_transclude) STUB(scen_opml) STUB(scen_chain) STUB(scen_pairs) STUB(scen_ac) STUB(scen_cost) STUB(scen_threads)
